@@ -127,30 +127,30 @@ func c06raceInstance(backend string, pl c06racePlan) (*conc.Instance, error) {
 	v := e.ref.last + 1
 	parent, base := e.ref.stateParent(v)
 	inst := &conc.Instance{Close: func() { e.ndb.Close() }}
-	var problems, outcome []string
+	var problems, outcome conc.Notes
 	var rootA, rootB node.Root
 	var contA, contB kv.Contents
 	var errA error
 	inst.Bodies = append(inst.Bodies, func() {
 		rootA, contA, errA = commitCandidate(e, parent, base, v, pl.A)
 		if errA != nil {
-			outcome = append(outcome, "A refused")
+			outcome.Add("%s", "A refused")
 		} else {
-			outcome = append(outcome, "A committed")
+			outcome.Add("%s", "A committed")
 		}
 	})
 	inst.Bodies = append(inst.Bodies, func() {
 		var err error
 		rootB, contB, err = commitCandidate(e, parent, base, v, pl.B)
 		if err != nil {
-			problems = append(problems, fmt.Sprintf("commit of the candidate that is going to be finalized failed: %v", err))
+			problems.Add("commit of the candidate that is going to be finalized failed: %v", err)
 			return
 		}
 		if err := e.ndb.Finalize([]node.Root{rootB}); err != nil {
-			problems = append(problems, fmt.Sprintf("finalize of the own candidate failed: %v", err))
+			problems.Add("finalize of the own candidate failed: %v", err)
 			return
 		}
-		outcome = append(outcome, "B finalized")
+		outcome.Add("%s", "B finalized")
 	})
 	type target struct {
 		root     node.Root
@@ -167,20 +167,20 @@ func c06raceInstance(backend string, pl c06racePlan) (*conc.Instance, error) {
 			for _, t := range targets {
 				got, err := readTree(e.ndb, t.root)
 				if err != nil {
-					problems = append(problems, fmt.Sprintf("retained finalized root of version %d is not fully readable while candidates race: %v", t.root.Version, err))
+					problems.Add("retained finalized root of version %d is not fully readable while candidates race: %v", t.root.Version, err)
 					return
 				}
 				if !got.Equal(t.contents) {
-					problems = append(problems, fmt.Sprintf("retained finalized root of version %d reads back %s instead of %s while candidates race", t.root.Version, got, t.contents))
+					problems.Add("retained finalized root of version %d reads back %s instead of %s while candidates race", t.root.Version, got, t.contents)
 					return
 				}
 			}
 		})
 	}
-	inst.Outcome = func() string { return strings.Join(outcome, " ") }
+	inst.Outcome = func() string { return strings.Join(outcome.List(), " ") }
 	inst.Final = func(_ *sched.Result) string {
-		if len(problems) > 0 {
-			return strings.Join(problems, "; ")
+		if problems.Len() > 0 {
+			return strings.Join(problems.List(), "; ")
 		}
 		// reference: B is the finalized root of v; A (if its commit was accepted and it differs) is a discarded candidate.
 		rb := &refRoot{root: rootB, contents: contB}
@@ -236,10 +236,11 @@ func c06concScenarios(r *ev.Run) []conc.Scenario {
 				b = 2
 			}
 			scs = append(scs, conc.Scenario{
-				Name:  fmt.Sprintf("c06 %s [%s] then %s", be, historyString(pl.Prefix), pl.Name),
-				Key:   fmt.Sprintf("c06 %s %s", be, pl.Name),
-				Bound: b,
-				New:   func() (*conc.Instance, error) { return c06concInstance(be, pl) },
+				Name:       fmt.Sprintf("c06 %s [%s] then %s", be, historyString(pl.Prefix), pl.Name),
+				Key:        fmt.Sprintf("c06 %s %s", be, pl.Name),
+				Bound:      b,
+				New:        func() (*conc.Instance, error) { return c06concInstance(be, pl) },
+				RaceUnsafe: len(pl.Writers) > 1,
 			})
 		}
 	}
@@ -262,8 +263,7 @@ func c06concInstance(backend string, pl c06concPlan) (*conc.Instance, error) {
 		}
 	}
 	inst := &conc.Instance{Close: func() { e.ndb.Close() }}
-	var problems []string
-	var outcome []string
+	var problems, outcome conc.Notes
 	nW := len(pl.Writers)
 	for wi, letters := range pl.Writers {
 		letters := letters
@@ -272,14 +272,14 @@ func c06concInstance(backend string, pl c06concPlan) (*conc.Instance, error) {
 		inst.Bodies = append(inst.Bodies, func() {
 			for _, l := range letters {
 				if !e.applicable(l) {
-					problems = append(problems, fmt.Sprintf("harness: letter %s not applicable", l))
+					problems.Add("harness: letter %s not applicable", l)
 					return
 				}
 				if w := e.apply(l); w != "" {
-					problems = append(problems, w)
+					problems.Add("%s", w)
 					return
 				}
-				outcome = append(outcome, l.String())
+				outcome.Add("%s", l.String())
 			}
 		})
 	}
@@ -297,26 +297,26 @@ func c06concInstance(backend string, pl c06concPlan) (*conc.Instance, error) {
 		inst.Bodies = append(inst.Bodies, func() {
 			for _, t := range targets {
 				if !e.ndb.HasRoot(t.root) {
-					problems = append(problems, fmt.Sprintf("retained finalized root of version %d is reported absent while other threads write", t.root.Version))
+					problems.Add("retained finalized root of version %d is reported absent while other threads write", t.root.Version)
 					return
 				}
 				got, err := readTree(e.ndb, t.root)
 				if err != nil {
-					problems = append(problems, fmt.Sprintf("retained finalized root %s of version %d (%s) is not fully readable while other threads write: %v", t.root.Hash, t.root.Version, t.contents, err))
+					problems.Add("retained finalized root %s of version %d (%s) is not fully readable while other threads write: %v", t.root.Hash, t.root.Version, t.contents, err)
 					return
 				}
 				if !got.Equal(t.contents) {
-					problems = append(problems, fmt.Sprintf("retained finalized root of version %d reads back %s instead of %s while other threads write", t.root.Version, got, t.contents))
+					problems.Add("retained finalized root of version %d reads back %s instead of %s while other threads write", t.root.Version, got, t.contents)
 					return
 				}
-				outcome = append(outcome, fmt.Sprintf("read(v%d)", t.root.Version))
+				outcome.Add("read(v%d)", t.root.Version)
 			}
 		})
 	}
-	inst.Outcome = func() string { return strings.Join(outcome, " ") }
+	inst.Outcome = func() string { return strings.Join(outcome.List(), " ") }
 	inst.Final = func(_ *sched.Result) string {
-		if len(problems) > 0 {
-			return strings.Join(problems, "; ")
+		if problems.Len() > 0 {
+			return strings.Join(problems.List(), "; ")
 		}
 		if w := e.readBack(); w != "" {
 			return "after all threads finished: " + w
@@ -345,6 +345,15 @@ func runC06Conc(r *ev.Run) {
 		}
 		fmt.Println("replay: property held")
 		os.Exit(0)
+	}
+	if os.Getenv("VERIF_PHASE") == "race" {
+		it := 10
+		if r.Thorough() {
+			it = 40
+		}
+		conc.RaceRun(r, c06concScenarios(r), it)
+		r.Set("race_rule", "free-running race-detector pass over the concurrency scenarios of the conc phase (same thread bodies as ordinary goroutines in a -race build); scenarios with two writer threads are skipped (the harness's reference model is shared between them)")
+		r.Finish()
 	}
 	r.Fork(ev.Workers())
 	scs := c06concScenarios(r)
